@@ -7,9 +7,16 @@
 //!   The virtual clock is advanced by `after_ms` (u32) before the report is added with
 //!   `Client::add_report_history_and_set_preferred_relay`.  `<u>` is a relay index `0..=999`
 //!   (url `https://rNNN.iroh.test/`, index order = url order), `<lat>` nanoseconds (u64).
+//!   `P <step> | <step> | …`  the same, but every step lists raw **probe reports** (grammar of C27:
+//!     `h <u> <lat>` | `4 <u> <lat> <addr>` | `6 <u> <lat> <addr>`, addr `4:<ip>:<port>` |
+//!     `6:<ip>:<port>`), which are folded into the report by the real `Report::update` before the
+//!     report is handed to the history function (composition C27 ∘ C28).  The oracle works on the
+//!     raw probe latencies, and the history is run a second time with the probes of every run in
+//!     reverse order: any difference is an `order-dependent` violation.
 //! output : one token per step: `<preferred|none>,<history length after the step>`
 //!          `bad-input` for anything unparsable.
 use std::collections::BTreeMap;
+use std::net::{Ipv4Addr, Ipv6Addr, SocketAddr, SocketAddrV4, SocketAddrV6};
 use std::time::Duration;
 
 use iroh::RelayUrl;
@@ -45,6 +52,28 @@ enum Kind {
 struct Step {
     after_ms: u64,
     upds: Vec<(Kind, u64, u64)>,
+    /// probe mode: the address each probe report carries (None for https)
+    addrs: Option<Vec<Option<SocketAddr>>>,
+}
+
+fn parse_addr(s: &str) -> Option<SocketAddr> {
+    let f: Vec<&str> = s.split(':').collect();
+    if f.len() != 3 {
+        return None;
+    }
+    match f[0] {
+        "4" => Some(SocketAddr::V4(SocketAddrV4::new(
+            Ipv4Addr::from(parse_dec::<u32>(f[1])?),
+            parse_dec::<u16>(f[2])?,
+        ))),
+        "6" => Some(SocketAddr::V6(SocketAddrV6::new(
+            Ipv6Addr::from(parse_dec::<u128>(f[1])?),
+            parse_dec::<u16>(f[2])?,
+            0,
+            0,
+        ))),
+        _ => None,
+    }
 }
 
 fn parse_dec<T: std::str::FromStr>(s: &str) -> Option<T> {
@@ -54,7 +83,7 @@ fn parse_dec<T: std::str::FromStr>(s: &str) -> Option<T> {
     s.parse().ok()
 }
 
-fn parse_step(s: &str) -> Option<Step> {
+fn parse_step(s: &str, probes: bool) -> Option<Step> {
     let s = s.trim();
     let (after, rest) = match s.split_once(' ') {
         Some((a, r)) => (a, r.trim()),
@@ -62,10 +91,15 @@ fn parse_step(s: &str) -> Option<Step> {
     };
     let after_ms = parse_dec::<u32>(after)? as u64;
     let mut upds = Vec::new();
+    let mut addrs = Vec::new();
     if rest != "-" {
         for item in rest.split(';') {
             let t: Vec<&str> = item.split(' ').filter(|x| !x.is_empty()).collect();
-            if t.len() != 3 {
+            if t.len() < 3 {
+                return None;
+            }
+            let want = if probes && t[0] != "h" { 4 } else { 3 };
+            if t.len() != want {
                 return None;
             }
             let k = match t[0] {
@@ -77,9 +111,10 @@ fn parse_step(s: &str) -> Option<Step> {
             let u = parse_dec::<u64>(t[1]).filter(|u| *u <= MAX_URL)?;
             let lat = parse_dec::<u64>(t[2])?;
             upds.push((k, u, lat));
+            addrs.push(if want == 4 { Some(parse_addr(t[3])?) } else { None });
         }
     }
-    Some(Step { after_ms, upds })
+    Some(Step { after_ms, upds, addrs: probes.then_some(addrs) })
 }
 
 fn parse(payload: &str) -> Option<Vec<Step>> {
@@ -87,7 +122,10 @@ fn parse(payload: &str) -> Option<Vec<Step>> {
     if p.is_empty() {
         return None;
     }
-    p.split('|').map(parse_step).collect()
+    if let Some(rest) = p.strip_prefix("P ") {
+        return rest.split('|').map(|s| parse_step(s, true)).collect();
+    }
+    p.split('|').map(|s| parse_step(s, false)).collect()
 }
 
 fn probe_of(k: Kind) -> Probe {
@@ -107,7 +145,50 @@ fn lowest(upds: &[(Kind, u64, u64)]) -> BTreeMap<u64, u64> {
     m
 }
 
+/// Builds the report of one step with the real code: `update_relay` calls, or (probe mode)
+/// `Report::update` with real probe reports, optionally in reverse arrival order.
+fn build_report(st: &Step, reversed: bool) -> NetReport {
+    let mut r = NetReport::default();
+    let mut idx: Vec<usize> = (0..st.upds.len()).collect();
+    if reversed {
+        idx.reverse();
+    }
+    for i in idx {
+        let (k, u, l) = st.upds[i];
+        let lat = Duration::from_nanos(l);
+        match &st.addrs {
+            None => hooks::latencies_update_relay(&mut r.relay_latency, url(u), lat, probe_of(k)),
+            Some(addrs) => match k {
+                Kind::Https => hooks::report_update_https(&mut r, url(u), lat),
+                Kind::V4 => hooks::report_update_qad_v4(&mut r, url(u), lat, addrs[i].unwrap()),
+                Kind::V6 => hooks::report_update_qad_v6(&mut r, url(u), lat, addrs[i].unwrap()),
+            },
+        }
+    }
+    r
+}
+
 impl C28 {
+    /// Only the implementation: the outputs of a history, probes optionally reversed.
+    fn replay_outs(&self, steps: &[Step], reversed: bool) -> Vec<String> {
+        let mut outs = Vec::new();
+        self.rt.block_on(async {
+            let mut hist = hooks::ReportHistory::new();
+            for st in steps {
+                tokio::time::advance(Duration::from_millis(st.after_ms)).await;
+                let mut r = build_report(st, reversed);
+                hist.add(&mut r);
+                let got = r.preferred_relay.as_ref().map(url_index);
+                outs.push(format!(
+                    "{},{}",
+                    got.map(|u| u.to_string()).unwrap_or_else(|| "none".into()),
+                    hist.prev_len()
+                ));
+            }
+        });
+        outs
+    }
+
     fn run_history(&self, steps: &[Step]) -> Exec {
         let mut outs: Vec<String> = Vec::new();
         let mut violations: Vec<(String, String)> = Vec::new();
@@ -129,14 +210,9 @@ impl C28 {
                     Duration::from_millis(now_ms),
                     "virtual clock"
                 );
-                let mut r = NetReport::default();
-                for (k, u, l) in &st.upds {
-                    hooks::latencies_update_relay(
-                        &mut r.relay_latency,
-                        url(*u),
-                        Duration::from_nanos(*l),
-                        probe_of(*k),
-                    );
+                let mut r = build_report(st, false);
+                if r.preferred_relay.is_some() {
+                    violations.push(("preferred-set-by-update".into(), format!("step {si}")));
                 }
                 hist.add(&mut r);
                 let got = r.preferred_relay.as_ref().map(url_index);
@@ -232,6 +308,17 @@ impl C28 {
                 prev = got;
             }
         });
+        let probe_mode = steps.iter().any(|s| s.addrs.is_some());
+        if probe_mode {
+            let rev = self.replay_outs(steps, true);
+            if rev != outs {
+                violations.push((
+                    "order-dependent".into(),
+                    format!("probes reversed inside every run: {} instead of {}", rev.join(" "), outs.join(" ")),
+                ));
+            }
+            tags.push("probe-mode".into());
+        }
         let mut ex = Exec::new(outs.join(" "));
         ex.violations = violations;
         tags.sort();
@@ -287,6 +374,38 @@ fn gen_report(rng: &mut Rng, nurls: usize, prev_lat: &mut Vec<u64>) -> String {
     items.join(";")
 }
 
+/// Turns a list of `update_relay` items into raw probe reports: QAD probes get an address
+/// (sometimes of the wrong family), some probes are retried with another latency, and the
+/// arrival order is shuffled.
+fn to_probes(rng: &mut Rng, rep: &str) -> String {
+    if rep == "-" {
+        return rep.to_string();
+    }
+    let mut items: Vec<String> = Vec::new();
+    for item in rep.split(';') {
+        let t: Vec<&str> = item.split(' ').collect();
+        let copies = if rng.chance(1, 4) { 2 } else { 1 };
+        for c in 0..copies {
+            let lat: u64 = t[2].parse().unwrap();
+            let lat = if c == 0 { lat } else { lat.saturating_add(rng.range(0, 3)).saturating_sub(1) };
+            if t[0] == "h" {
+                items.push(format!("h {} {lat}", t[1]));
+            } else {
+                let want_v6 = t[0] == "6";
+                let v6 = if rng.chance(1, 8) { !want_v6 } else { want_v6 };
+                let addr = if v6 {
+                    format!("6:{}:{}", rng.pick(&[1u128, 2, u128::MAX]), rng.pick(&[1u16, 65535]))
+                } else {
+                    format!("4:{}:{}", rng.pick(&[1u32, 2, u32::MAX]), rng.pick(&[1u16, 65535]))
+                };
+                items.push(format!("{} {} {lat} {addr}", t[0], t[1]));
+            }
+        }
+    }
+    rng.shuffle(&mut items);
+    items.join(";")
+}
+
 fn gen_after(rng: &mut Rng) -> u64 {
     match rng.below(16) {
         0 => 0,
@@ -332,7 +451,18 @@ impl Prop for C28 {
             "0 h 3 5 | 10 -| 10 h 3 5",
             "0 h 3 0 | 10 h 3 0;h 17 0",
             "0 h 17 0 | 10 h 3 0;h 17 0",
+            // probe mode (C27 ∘ C28): D11 from raw probes, retries of one probe kind, wrong-family
+            // addresses, a run without probes
+            "P 0 h 3 30000000;6 3 90000000 6:1:1 | 1000 6 3 90000000 6:1:1;h 17 25000000;h 3 30000000",
+            "P 0 h 3 30000000;6 3 90000000 6:1:1 | 1000 6 3 90000000 6:1:1;h 17 20000000;h 3 30000000",
+            "P 0 4 3 50 4:1:1;4 3 40 4:1:2;4 3 60 6:1:1 | 10 - | 20 6 17 30 4:9:9;4 3 100 4:1:1",
+            "P 0 h 3 10 | 300000 h 3 50;h 17 20 | 1 h 3 50;h 17 20",
             // malformed
+            "P",
+            "P 0 4 3 5",
+            "P 0 h 3 5 4:1:1",
+            "P 0 4 3 5 4:1",
+            "P 0 4 3 5 4:4294967296:1",
             "",
             "x",
             "0",
@@ -361,13 +491,16 @@ impl Prop for C28 {
             let steps = rng.range(1, max_steps);
             let nurls = rng.range(1, 4) as usize;
             let mut prev_lat = Vec::new();
+            let probe_mode = rng.chance(1, 2);
             let v: Vec<String> = (0..steps)
                 .map(|i| {
                     let after = if i == 0 && rng.bool() { 0 } else { gen_after(rng) };
-                    format!("{after} {}", gen_report(rng, nurls, &mut prev_lat))
+                    let rep = gen_report(rng, nurls, &mut prev_lat);
+                    let rep = if probe_mode { to_probes(rng, &rep) } else { rep };
+                    format!("{after} {rep}")
                 })
                 .collect();
-            out.push(v.join(" | "));
+            out.push(format!("{}{}", if probe_mode { "P " } else { "" }, v.join(" | ")));
         }
     }
 
